@@ -6,6 +6,8 @@ pub mod glyf;
 pub mod tables;
 pub mod woff;
 pub mod woff2;
+pub mod cff_c07;
+pub mod validate_c09;
 
 pub fn tag(s: &str) -> u32 {
     let b = s.as_bytes();
